@@ -5,6 +5,8 @@
     DictEncodedSizeWithDict/DictEncodeWithDict, GroupSize/GroupEncode (+ the width-normalisation decision lists), RLEAnalyze/RLEEncode
  Z2 maximum-size bounds: a symbolic upper bound of every write through the destination (and of the returned length) is at most the
     sizing function for every residue of count: delta (2), BP128 (4), Elias gamma / delta array encoders (2)
+Z5 write extents of the FOR / FORBatch / PFOR / Dict encoders against their predictors, one field width (1..8) at a time: with every load of
+    the width field pinned, each write offset + extent (tagged writes: exactly their returned length) is at most the predicted total
 Not decided here: RLE max size (amortised), adaptive max size (depends on selection), Elias / BP128 / float maximum sizes (bit
 cursors kept in reader/writer objects, block residues) - listed in the evidence."""
 import os
@@ -21,6 +23,8 @@ PAIRS = [("varintFORSize", "varintFOREncode", True), ("varintFORSize", "varintFO
 TOTALS = [("varintFORSize", None, "varintFOREncode", True), ("varintFORSize", None, "varintFORBatchEncode", True), ("varintPFORSize", None, "varintPFOREncode", False),
           ("varintDictEncodedSizeWithDict", None, "varintDictEncodeWithDict", True), ("varintRLEAnalyze", "encodedSize", "varintRLEEncode", True)]
 # (encoder, destination parameter, witness wrapper of the sizing function (witness/sizers.c), count parameter, period of the residue comparison)
+Z5_PAIRS = [("varintFORSize", "varintFOREncode", "dst", "offsetWidth"), ("varintFORSize", "varintFORBatchEncode", "dst", "offsetWidth"),
+            ("varintPFORSize", "varintPFOREncode", "dst", "width"), ("varintDictEncodedSizeWithDict", "varintDictEncodeWithDict", "buffer", "indexWidth")]
 MAXSIZE = [("varintDeltaEncode", "output", "w_deltaMaxEncodedSize", "count", 1), ("varintDeltaEncodeUnsigned", "output", "w_deltaMaxEncodedSize", "count", 1),
            ("varintBP128Encode32", "dst", "w_bp128MaxBytes", "count", 128), ("varintBP128Encode64", "dst", "w_bp128MaxBytes", "count", 128),
            ("varintBP128DeltaEncode32", "dst", "w_bp128MaxBytes", "count", 128), ("varintBP128DeltaEncode64", "dst", "w_bp128MaxBytes", "count", 128),
@@ -95,6 +99,51 @@ def analyse(mod, run, label):
         okz = (not d.t) if exact else d.nonneg_coeffs()
         run.check(okz, "Z3-total-size-agrees", {"predictor": pred, "encoder": enc, "predicted": repr(pp), "written": repr(ep), "relation": "==" if exact else ">="},
                   Finding("Z3-total-size-differs", pred, enc, "total", "%s predicts %r bytes but %s advances its output by %r" % (pred, pp, enc, ep), loc="%s:%s" % (rel(pf.file), pf.line)))
+    # ---- Z5: every write of the encoder lies inside the predicted size, one field width at a time ----
+    nz5 = 0
+    from ..bounds import Bounds as _B5
+    B5 = _B5(w)
+    for pred, enc, dstn, wfield in Z5_PAIRS:
+        pf = need_fn(mod, pred); ef = need_fn(mod, enc); dk = ef.param_index(dstn)
+        if dk is None: raise AnalysisBroken("Z5 %s: parameter %s not found" % (enc, dstn))
+        okall = True; worst_txt = None
+        try:
+            for k in range(1, 9):
+                pu = UB(w, pf); pu.roles = True; pu.pin_fields({wfield: k})
+                P = None
+                for rt in pf.rets():
+                    v = rt.ops[0]
+                    cands = [inc["v"] for inc in pf.imap[v["v"]]["incoming"]] if v["k"] == "inst" and pf.imap[v["v"]].op == "phi" and pf.imap[v["v"]].block is rt.block else [v]
+                    for c in cands:
+                        q = pu.at(rt.block).ub(c)
+                        if q.is_const() and q.c() == 0: continue
+                        P = q if P is None else pmax(P, q)
+                eu = UB(w, ef); eu.roles = True; eu.pin_fields({wfield: k})
+                # a loop that continues another loop's counter needs a relation between cursor and counter that is not tracked
+                for h, body in eu.loops.items():
+                    if h in eu.unreach: continue
+                    for j in ef.bmap[h].insts:
+                        if j.op == "phi" and not j["t"].endswith("*"):
+                            ph, s0 = eu.counter({"k": "inst", "v": j.id, "t": j["t"]}, h, body)
+                            if ph is not None:
+                                init = [inc["v"] for inc in ph["incoming"] if inc["b"] not in body][0]
+                                if init["k"] == "inst" and ef.imap[init["v"]].op == "phi": raise Unbounded("the loop at line %s continues the counter of an earlier loop" % j.line)
+                ext, nw = eu.extent(B5, ("arg", dk))
+                for c, cond in ext:
+                    c2 = c
+                    for a in sorted(c.atoms() - P.atoms(), key=repr):
+                        if a[0] == "len" and a[2].startswith("member/"): c2 = c2.subst(a, Poly.const(tagged_max(mod, int(a[2].split("/")[2]))))
+                    d = P - c2
+                    foreign = c2.atoms() - P.atoms()
+                    if foreign: raise Unbounded("a write is bounded over quantities the predictor does not mention (%s)" % ", ".join(sorted(fmt_atom(a) for a in foreign)))
+                    if not d.nonneg_coeffs():
+                        okall = False; worst_txt = "for %s = %d a write of %s can end at byte %r but %s predicts %r" % (wfield, k, enc, c2, pred, P); break
+                if not okall: break
+        except Unbounded as e:
+            run.defer_broken("Z5 %s / %s: %s" % (pred, enc, e)); continue
+        nz5 += 1
+        run.check(okall, "Z5-writes-within-predicted-size", {"predictor": pred, "encoder": enc, "widths": "1..8"},
+                  Finding("Z5-write-beyond-predicted-size", enc, pred, "extent", worst_txt or "", loc="%s:%s" % (rel(ef.file), ef.line)))
     # ---- Z2 ----
     nmax = 0
     from ..bounds import Bounds
@@ -160,7 +209,7 @@ def analyse(mod, run, label):
             run.defer_broken("Z2 %s: cannot establish that writes stay within %s: %s" % (enc, sname, what)); nmax -= 1; continue
         run.check(not bad, "Z2-writes-within-max-size", {"encoder": enc, "write_sites": nacc, "upper_bounds": [repr(q) + ("" if c is None else "  [when %r > 0]" % c) for q, c in worst], "advertised": repr(size), "residues": M, "comparisons": ncmp},
                   Finding("Z2-max-size-too-small", enc, sname, "bound", what, loc="%s:%s" % (rel(ef.file), ef.line)))
-    return npairs, nmax, ntot
+    return npairs, nmax, ntot, nz5
 
 
 def tagged_max(mod, bits):
@@ -228,15 +277,16 @@ def run(tier):
     per = {}
     for cfg in configs_for(tier):
         mod = lib_module(cfg, ("wrap", "sizers"))
-        np_, nm, nt = analyse(mod, run, cfg)
-        per[cfg] = {"predictor_encoder_pairs": np_, "max_size_sites": nm, "total_size_pairs": nt}
+        np_, nm, nt, n5 = analyse(mod, run, cfg)
+        per[cfg] = {"predictor_encoder_pairs": np_, "max_size_sites": nm, "total_size_pairs": nt, "write_extent_pairs": n5}
+        if not getattr(run, "deferred", None): run.floor("write-extent pairs (%s)" % cfg, n5, 4)
         if not getattr(run, "deferred", None): run.floor("total-size pairs (%s)" % cfg, nt, 5)
         run.floor("predictor/encoder pairs (%s)" % cfg, np_, 6)
         if not getattr(run, "deferred", None): run.floor("max-size sites (%s)" % cfg, nm, 9)
     run.coverage.update({"configurations": per,
                          "not_decided": ["varintRLEEncode vs varintRLEMaxSize (amortised argument: a run of L values costs len(L)+9 <= 10L)", "varintAdaptiveEncode vs varintAdaptiveMaxSize (depends on what the value-level selection picks)",
                                          "varintFloatEncode vs varintFloatMaxEncodedSize in the COMMON_EXPONENT and DELTA_EXPONENT modes (only INDEPENDENT is decided)",
-                                         "write extents of the FOR / PFOR / Dict / Group encoders against their predictors (Z1 and Z3 compare terms and totals; a store wider than the cursor's advance is not seen)",
+                                         "write extents of encoders whose packing loop continues the counter of an earlier loop (needs a cursor/counter relation; reported as analysis-broken), and of varintGroupEncode",
                                          "bytes touched by varintBitWriterWrite are assumed to lie below varintBitWriterBytes()"]})
     return run.finish(
         "Z1: for each predictor/encoder pair the calls whose results advance the encoder's cursor and the calls whose results are summed by the "
